@@ -3426,9 +3426,6 @@ func (m *SnapManager) undoUnlinkSnap(t *state.Task, _ *tomb.Tomb) error {
 		}
 	}
 
-	snapst.Active = true
-	Set(st, snapsup.InstanceName(), snapst)
-
 	opts, err := SnapServiceOptions(st, info, nil)
 	if err != nil {
 		return err
@@ -3442,6 +3439,10 @@ func (m *SnapManager) undoUnlinkSnap(t *state.Task, _ *tomb.Tomb) error {
 	if err != nil {
 		return err
 	}
+
+	// mark as active again only once the snap is linked
+	snapst.Active = true
+	Set(st, snapsup.InstanceName(), snapst)
 
 	// Notify link snap participants about link changes.
 	notifyLinkParticipants(t, snapsup)
